@@ -97,6 +97,9 @@ def run(cx):
     resend_ref_in_own_frame(cx, "C12.j")
     from props.shared import resend_refs_untouched
     resend_refs_untouched(cx, "C12.r")
+    # the frame log keeps the whole list it is given
+    from props.shared import ctor_initial_state
+    ctor_initial_state(cx, "C12.s")
     # "not transmitted again once the receiver has reported moving past the packet" compares window bases, which
     # are circular ids
     from props.idarith import id_arith_discipline
